@@ -114,6 +114,9 @@ func (t *tctx) expr(e ast.Expr) string {
 		}
 		return t.expr(x.X) + "." + x.Sel.Name
 	case *ast.IndexExpr:
+		if tbl, ok := t.tables[src(x.X)]; ok {
+			return "(" + tbl + ".contains " + t.expr(x.Index) + ")"
+		}
 		return "(Hdr.values " + t.expr(x.X) + " " + t.expr(x.Index) + ")"
 	case *ast.UnaryExpr:
 		if x.Op == token.NOT {
@@ -359,7 +362,8 @@ func (t *tctx) stmt(s ast.Stmt, ind string) []string {
 			v = src(x.Value)
 		}
 		_, isHdr := t.hdrVars[src(x.X)]
-		if isHdr || strings.HasSuffix(src(x.X), "Header") || strings.HasSuffix(src(x.X), "Trailer") || strings.HasSuffix(src(x.X), "Header()") {
+		lx := strings.ToLower(src(x.X))
+		if isHdr || strings.HasSuffix(lx, "header") || strings.HasSuffix(lx, "trailer") || strings.HasSuffix(lx, "header()") {
 			// range over a header map: (key, values)
 			pat = "(" + k + ", " + v + ")"
 		} else {
@@ -773,6 +777,28 @@ func genFuncs() string {
 		body = append(body, sb2...)
 		body = append(body, "  return (slept, retryCount)")
 		emitDef(&sb, "agent_pollRetryStep (failed : Bool) (retryCount0 : BitVec 64) : Option (BitVec 64) × BitVec 64", body, rel+" pollForNewRequests: sleep and retry counter per list call")
+	}
+
+	// 6c. websockets.stripWSHeader
+	{
+		rel := "agent/websockets/connection.go"
+		f := parseFile(rel)
+		fd := mustFunc(f, rel, "", "stripWSHeader")
+		t := &tctx{pkg: "websockets", env: collectConsts(f), ret: "value", where: rel + ":stripWSHeader",
+			tables:  map[string]string{"stripHeaderNames": "websockets_stripHeaderNames"},
+			hdrVars: map[string]string{"result": "result"}}
+		var body []string
+		for _, s := range fd.Body.List {
+			if a, ok := s.(*ast.AssignStmt); ok && src(a.Lhs[0]) == "result" {
+				if src(a.Rhs[0]) != "http.Header{}" {
+					fail("%s: stripWSHeader no longer starts from an empty header", rel)
+				}
+				body = append(body, "  let mut result : Hdr := []")
+				continue
+			}
+			body = append(body, t.stmt(s, "  ")...)
+		}
+		emitDef(&sb, "websockets_stripWSHeader (header : Hdr) : Hdr", body, rel+" stripWSHeader")
 	}
 
 	// 7. tcpbridge routing predicate
